@@ -57,18 +57,7 @@ pub proof fn lemma_leftmost_is_a_leaf(c: IdentiCall)
 {
     match c { IdentiCall::Iden(_) => {}, IdentiCall::Call(instance, _) => lemma_leftmost_is_a_leaf(*instance) }
 }
-/// the chain without its leading `object.`: None if the chain does not start with that name (or is a bare name)
-pub open spec fn stripped(c: IdentiCall, object: Seq<char>) -> Option<IdentiCall>
-    decreases c
-{
-    match c {
-        IdentiCall::Iden(_) => None,
-        IdentiCall::Call(obj, call) => match *obj {
-            IdentiCall::Iden(s) => if s@ == object { Some(*call) } else { None },
-            IdentiCall::Call(_, _) => match stripped(*obj, object) { Some(o2) => Some(IdentiCall::Call(Box::new(o2), call)), None => None },
-        },
-    }
-}
+//@@ INCLUDE ident_spec.inc.rs
 /// the (mutable flag, left-most name) pairs of a pattern, leaf by leaf, in order
 pub open spec fn flds(i: Identifier) -> Seq<(bool, Seq<char>)>
     decreases i
@@ -171,7 +160,35 @@ pub proof fn lemma_reflag_all(a: Seq<Identifier>, b: Seq<Identifier>, m: bool, n
     }
 }
 
+/// concatenation of the first n parts
+pub open spec fn cat_n(vv: Seq<Vec<IdentiCall>>, n: int) -> Seq<IdentiCall>
+    decreases n
+{
+    if n <= 0 || n > vv.len() { Seq::empty() } else { cat_n(vv, n - 1) + vv[n - 1]@ }
+}
+pub proof fn lemma_cat_is_calls(ids: Seq<Identifier>, vv: Seq<Vec<IdentiCall>>, n: int)
+    requires vv.len() == ids.len(), 0 <= n <= ids.len(), forall|k: int| 0 <= k < ids.len() ==> (#[trigger] vv[k])@ == calls_of(ids[k]),
+    ensures cat_n(vv, n) == calls_all(ids, n),
+    decreases n
+{
+    if n > 0 { lemma_cat_is_calls(ids, vv, n - 1); }
+}
+/// A-REWRITE: `v.iter().flat_map(f).collect()` with f returning a Vec: the concatenation of f's results, in order (ghost parts)
+#[verifier::external_body]
+pub fn verif_flat_map_calls<F: Fn(&Identifier) -> Vec<IdentiCall>>(v: &Vec<Identifier>, f: F, Ghost(val): Ghost<spec_fn(Identifier) -> Seq<IdentiCall>>) -> (r: (Vec<IdentiCall>, Ghost<Seq<Vec<IdentiCall>>>))
+    requires forall|x: Identifier| #[trigger] f.requires((&x,)),
+        forall|x: Identifier, out: Vec<IdentiCall>| #[trigger] f.ensures((&x,), out) ==> out@ == val(x),
+    ensures r.1@.len() == v@.len(), forall|k: int| 0 <= k < v@.len() ==> (#[trigger] r.1@[k])@ == val(v@[k]), r.0@ == cat_n(r.1@, v@.len() as int),
+{ unimplemented!() }
+
 impl Identifier {
+#[verifier::exec_allows_no_decreases_clause]
+//@@ FN src/check/ident.rs | impl Identifier | all_calls | props=C09,C03
+//@@ REPLACE deep
+//@@< idens.iter().flat_map(|$id| $$).collect()
+//@@> { let (verif_r, Ghost(verif_parts)) = verif_flat_map_calls(idens, |$id: &Identifier| -> (o: Vec<IdentiCall>) ensures /*# each_component_contributes_its_own_chains [C09] #*/ o@ == calls_of(*$id), { $$1 }, Ghost(|x: Identifier| calls_of(x))); proof { lemma_cat_is_calls(idens@, verif_parts, idens@.len() as int); } verif_r }
+    ensures r@ == calls_of(*self),                                               //# one_chain_per_leaf_in_order [C09]
+//@@ END
 #[verifier::exec_allows_no_decreases_clause]
 //@@ FN src/check/ident.rs | impl Identifier | fields | props=C07,C09,C03
 //@@ REPLACE deep
